@@ -220,48 +220,54 @@ func (w *worker) setup() (opened bool, err error) {
 	if err != nil {
 		return true, fmt.Errorf("second Update: %v", err)
 	}
-	if _, k := w.dump(); k != newBucket().String() {
+	if _, k := w.dump(); k != newTop(newBucket()).String() {
 		return true, fmt.Errorf("after the Update that created the namespace bucket a fresh read transaction shows %s", k)
 	}
 	return true, nil
 }
 
-func (w *worker) restore(m *mbucket) error {
+func (w *worker) restore(m *mbucket) (err error) {
 	w.st.restores++
+	defer func() {
+		if r := recover(); r != nil {
+			err = fmt.Errorf("panic: %v", r)
+		}
+	}()
 	return walletdb.Update(w.db, func(tx walletdb.ReadWriteTx) error {
-		if tx.ReadWriteBucket(nsKey) != nil {
-			if err := tx.DeleteTopLevelBucket(nsKey); err != nil {
+		var names [][]byte
+		if err := tx.ForEachBucket(func(k []byte) error {
+			names = append(names, append([]byte{}, k...))
+			return nil
+		}); err != nil {
+			return err
+		}
+		for _, n := range names {
+			if err := tx.DeleteTopLevelBucket(n); err != nil {
 				return err
 			}
 		}
-		b, err := tx.CreateTopLevelBucket(nsKey)
-		if err != nil {
-			return err
+		for _, k := range m.keys() {
+			b, err := tx.CreateTopLevelBucket([]byte(k))
+			if err != nil {
+				return err
+			}
+			if err := writeModel(b, m.ent[k].sub); err != nil {
+				return err
+			}
 		}
-		return writeModel(b, m)
+		return nil
 	})
 }
 
-// dump reads the whole namespace through a fresh read transaction.
+// dump reads every top-level bucket through a fresh read transaction.
 func (w *worker) dump() (*mbucket, string) {
 	w.st.dumps++
 	tx, err := w.db.BeginReadTx()
 	if err != nil {
 		return nil, "<BeginReadTx: " + err.Error() + ">"
 	}
-	var m *mbucket
-	if b := tx.ReadBucket(nsKey); b != nil {
-		m = readModel(b)
-	}
+	m := readTop(tx)
 	key := m.String()
-	var tops []string
-	_ = tx.ForEachBucket(func(k []byte) error {
-		tops = append(tops, string(k))
-		return nil
-	})
-	if len(tops) != 1 || tops[0] != string(nsKey) {
-		key += fmt.Sprintf(" <top-level buckets %q>", tops)
-	}
 	if err := tx.Rollback(); err != nil {
 		return m, key + " <Rollback: " + err.Error() + ">"
 	}
@@ -277,6 +283,21 @@ func (w *worker) reopen() error {
 		return fmt.Errorf("open: %v", err)
 	}
 	return nil
+}
+
+// reopenOrRecreate closes and reopens the file. A file that cannot be closed
+// or opened any more is a violation; the worker then continues on a new file.
+func (w *worker) reopenOrRecreate(st *state, ii int) bool {
+	err := w.reopen()
+	if err == nil {
+		return true
+	}
+	w.violation("reopen:failed", st, ii, "the database cannot be closed and reopened: "+err.Error())
+	w.cur = ""
+	if _, err := w.setup(); err != nil {
+		ev.Fatal("worker %d: cannot recreate the database after a failed reopen: %v", w.id, err)
+	}
+	return false
 }
 
 func order(uidx, sidx, item int) uint64 {
@@ -357,26 +378,22 @@ func (w *worker) runTx(ko KO, x *txrun) (ret error, pv interface{}, panicked boo
 		}
 	}()
 	end := func() error {
-		switch ko.Out {
-		case oErr:
-			return errSentinel
-		case oPanic:
+		switch {
+		case ko.Out == oPanic:
 			panic(panicSentinel{})
+		case ko.Out == oErr, x.poisoned:
+			// after a panic inside the adapter the transaction is never committed
+			return errSentinel
 		}
 		return nil
 	}
 	rw := func(tx walletdb.ReadWriteTx) error {
 		tx.OnCommit(func() { x.onCommit++ })
-		b := tx.ReadWriteBucket(nsKey)
-		if b == nil {
-			x.body(bk{})
-		} else {
-			x.body(bk{r: b, w: b})
-		}
+		x.body(tx, tx)
 		return end()
 	}
 	ro := func(tx walletdb.ReadTx) error {
-		x.body(bk{r: tx.ReadBucket(nsKey)})
+		x.body(tx, nil)
 		return end()
 	}
 	switch ko.Kind {
@@ -392,7 +409,7 @@ func (w *worker) runTx(ko KO, x *txrun) (ret error, pv interface{}, panicked boo
 			return fmt.Errorf("BeginReadWriteTx: %v", err), nil, false
 		}
 		_ = rw(tx)
-		if ko.Kind == kRWCommit {
+		if ko.Kind == kRWCommit && !x.poisoned {
 			ret = tx.Commit()
 		} else {
 			ret = tx.Rollback()
@@ -423,6 +440,7 @@ func (w *worker) transitionHash(st *state, prog []uint16, ko KO) uint64 {
 	h = fnv(h, st.key)
 	for _, oi := range prog {
 		o := w.ex.u.ops[oi]
+		h = fnv(h, o.Root)
 		for _, l := range o.Loc {
 			h = fnv(h, l)
 		}
@@ -454,7 +472,7 @@ func (w *worker) runItem(st *state, ii int) {
 		if k != st.key {
 			// The transition is still run: its in-transaction comparisons do
 			// not depend on the dump.
-			w.violation("restore:content", st, ii, fmt.Sprintf("after clearing the namespace and writing the state in one Update a fresh read transaction shows %s", k))
+			w.violation("restore:content", st, ii, fmt.Sprintf("after deleting every top-level bucket and writing the state in one Update a fresh read transaction shows %s", k))
 		}
 		w.cur = k
 	}
@@ -463,13 +481,13 @@ func (w *worker) runItem(st *state, ii int) {
 	if it.prog < 0 {
 		w.beat("reopen", st, ii)
 		w.st.perKO["reopen"]++
-		if err := w.reopen(); err != nil {
-			ev.Fatal("worker %d: reopen: %v", w.id, err)
+		if !w.reopenOrRecreate(st, ii) {
+			return
 		}
 		_, k := w.dump()
 		w.st.evals++
 		if k != st.key {
-			w.violation("reopen:content", st, ii, fmt.Sprintf("after db.Close and walletdb.Open the namespace is %s", k))
+			w.violation("reopen:content", st, ii, fmt.Sprintf("after db.Close and walletdb.Open the database is %s", k))
 		}
 		w.cur = k
 		return
@@ -490,6 +508,7 @@ func (w *worker) runItem(st *state, ii int) {
 		}
 	}
 	ret, pv, panicked := w.runTx(ko, x)
+	commits := ko.commits() && !x.poisoned
 	kn := kindNames[ko.Kind]
 	if ko.Kind == kSnapshot {
 		kn = "update"
@@ -502,6 +521,8 @@ func (w *worker) runItem(st *state, ii int) {
 		if ret != nil {
 			x.fail(kn+":failed", "%s returned %v", kindLong[ko.Kind], ret)
 		}
+	case ko.Out == oNil && x.poisoned && errors.Is(ret, errSentinel):
+		// the harness itself aborted the transaction after a panic inside the adapter
 	case ko.Out == oNil && ret != nil:
 		x.fail(kn+":nil-but-failed", "closure returned nil but %s returned %v", kindLong[ko.Kind], ret)
 	case ko.Out == oErr && !errors.Is(ret, errSentinel):
@@ -519,7 +540,7 @@ func (w *worker) runItem(st *state, ii int) {
 	if !ko.readonly() {
 		x.evals++
 		want := 0
-		if ko.commits() {
+		if commits {
 			want = 1
 		}
 		if x.onCommit != want {
@@ -528,12 +549,8 @@ func (w *worker) runItem(st *state, ii int) {
 	}
 
 	if snap != nil {
-		var m *mbucket
-		if b := snap.ReadBucket(nsKey); b != nil {
-			m = readModel(b)
-		}
 		x.evals++
-		if k := m.String(); k != st.key {
+		if k := readTop(snap).String(); k != st.key {
 			x.fail("isolation:reader-saw-later-commit", "a read transaction opened before the update shows %s after the update committed", k)
 		}
 		if err := snap.Rollback(); err != nil {
@@ -542,11 +559,11 @@ func (w *worker) runItem(st *state, ii int) {
 	}
 
 	expM, expKey := st.m, st.key
-	if ko.commits() {
+	if commits {
 		expM, expKey = x.w, x.w.String()
 	}
 
-	if !ko.readonly() && !ko.commits() {
+	if !ko.readonly() && !commits {
 		// The writer lock must be free again.
 		w.beat("probe", st, ii)
 		tx, err := w.db.BeginReadWriteTx()
@@ -568,15 +585,14 @@ func (w *worker) runItem(st *state, ii int) {
 
 	if ko.Reopen {
 		w.beat("reopen", st, ii)
-		if err := w.reopen(); err != nil {
-			ev.Fatal("worker %d: reopen: %v", w.id, err)
+		if w.reopenOrRecreate(st, ii) {
+			_, k := w.dump()
+			x.evals++
+			if k != expKey {
+				x.fail("reopen:content", "after db.Close and walletdb.Open the database is %s, expected %s", k, expKey)
+			}
+			w.cur = k
 		}
-		_, k := w.dump()
-		x.evals++
-		if k != expKey {
-			x.fail("reopen:content", "after db.Close and walletdb.Open the namespace is %s, expected %s", k, expKey)
-		}
-		w.cur = k
 	}
 
 	w.st.evals += x.evals
@@ -589,13 +605,13 @@ func (w *worker) runItem(st *state, ii int) {
 	}
 
 	hasMut := u.progHasMutator(prog)
-	if !ko.commits() && !ko.readonly() && x.anyMut {
+	if !commits && !ko.readonly() && x.anyMut {
 		w.st.nontrivial = append(w.st.nontrivial, w.transitionHash(st, prog, ko))
 	}
 	if hasMut && (x.anyMut || ko.readonly()) && st.idx > 0 && (len(prog) >= 2 || ko.MaxOps == 1 || u.MaxOps == 1) {
 		w.sample(ko, st, ii, x, gotKey)
 	}
-	if ko.commits() && expKey != st.key {
+	if commits && expKey != st.key {
 		w.st.commitsChanging++
 		w.ex.discover(expKey, expM, st, ii)
 	}
@@ -688,7 +704,7 @@ func (g *global) explore(u *Universe, uidx int) {
 		ex.states = append(ex.states, s)
 		ex.index[s.key] = s.idx
 	}
-	empty := newBucket()
+	empty := newTop(newBucket())
 	addState(&state{m: empty, key: empty.String(), parent: -1, expand: true})
 	for _, sd := range u.Seeds {
 		if _, ok := ex.index[sd.String()]; !ok {
